@@ -226,6 +226,21 @@ Section Step.
         match mstat s1 with Alive => run_steps fixed r s1 | _ => [] end
     end.
 
+  (** ** calc_physics_step_limit (phys/PhysicsStepUtils.hh) given the table look-ups:
+      [mfp] remaining interaction MFP, [xs] total macroscopic cross section,
+      [eloss_step] = range_to_step(range) if the particle has an energy-loss process,
+      [fixed] = fixed_step_limiter, [no_processes] = num_particle_processes == 0 *)
+  Definition calc_physics_step_limit (stopped : bool) (mfp xs : T) (has_eloss : bool)
+             (eloss_step fixed : T) (no_processes : bool) : T * paction :=
+    if stopped then (n0, ADiscrete)
+    else
+      let l0 := mfp / xs in
+      if has_eloss then
+        let '(l1, a1) := if eloss_step <=? l0 then (eloss_step, ARange) else (l0, ADiscrete) in
+        if (n0 <? fixed) && (fixed <? l1) then (fixed, AOther) else (l1, a1)
+      else if no_processes then (l0, ANone)
+      else (l0, ADiscrete).
+
   (** ** Appliers with scripted helpers (unit correspondence of the header templates) *)
 
   (** PropagationApplier given the propagator's answer (distance, boundary), non-looping *)
